@@ -150,6 +150,7 @@ def run(ctx, rep):
     _c16.expressions_are_typed_before_they_are_stored(F, rep, rule="C03.typed-tree")
     prefix_words_are_reserved(ctx, F, rep)
     loop_step_is_type_checked(F, rep)
+    diagnostics_name_the_source_file(F, rep)
 
 
 def every_argument_is_checked(F, rep, rule):
@@ -485,3 +486,40 @@ def loop_step_is_type_checked(F, rep, rule="C03.loop-step"):
            "" if ok else ("%d of %d operator typings take the result of another as receiver, none of them guards the successful returns: "
                           "`from 0 to 6 step \"2\"` compiles (the counter becomes the str \"02\") and fails when it is compared" % (len(chained), len(gots))),
            nl.span, fn=nl.path, key=rule)
+
+
+
+def diagnostics_name_the_source_file(F, rep, rule="C03.diagnostic-file"):
+    """A diagnostic names the source file and the position in it.  The parser state knows two names: the `.ms` source (get_source_file_name)
+    and the `.mmm` file the bytecode will be written to (get_file_name).  Every builder of a positioned diagnostic (new_err, map_err,
+    CompilationError::details) takes the file name as an argument: that argument derives from get_source_file_name, never from
+    get_file_name / bytecode_path."""
+    BUILDERS = {"compiler::ast::new_err": 1, "compiler::ast::map_err": 2, "compiler::CompilationError::details": 2}
+    SRC = ("compiler::parser::AssocFileData::get_source_file_name", "compiler::parser::AssocFileData::source_path")
+    OUT = ("compiler::parser::AssocFileData::get_file_name", "compiler::parser::AssocFileData::bytecode_path")
+    thr = rules.TRANSPARENT | {rules.TRY_BRANCH, "alloc::string::String::as_str", "core::ops::deref::Deref::deref", "core::convert::AsRef::as_ref", "core::borrow::Borrow::borrow",
+                               "core::clone::Clone::clone", "alloc::borrow::ToOwned::to_owned", "alloc::string::ToString::to_string"}
+    n, bad = 0, []
+    for f in F.crates["compiler"].fns:
+        for c in f.calls():
+            idx = None
+            for b, i in BUILDERS.items():
+                if c.matches(b):
+                    idx = i
+            if idx is None or idx >= len(c.args):
+                continue
+            n += 1
+            l = op_local(c.args[idx])
+            oc = rules.origin_calls(f, l, transparent=thr) if l is not None else []
+            if any(x.matches(OUT) for x in oc):
+                bad.append((f, c))
+    seen = {}
+    for f, c in bad:
+        owner = mir.short(re.sub(r"::\{closure#\d+\}", "", f.path))
+        seen[owner] = seen.get(owner, 0) + 1
+        rep.ob(rule, "%s reports its diagnostic against the source file" % owner, "violated",
+               "the file name handed to %s comes from get_file_name(): the diagnostic reads `x.mmm:LINE:COL`, a file that does not exist yet" % mir.short(c.callee()),
+               c.span, fn=f.path, key="%s|%s#%d" % (rule, owner, seen[owner]))
+    if not bad:
+        rep.ob(rule, "no positioned diagnostic is reported against the bytecode file's name", "ok", "%d diagnostic constructions inspected" % n, None, key=rule + "|summary")
+    rep.floor(rule + " positioned diagnostic constructions", n, 90)
